@@ -82,6 +82,47 @@ def check_metadata(fam, arg):
     return n
 
 
+def snapshot(p):
+    pt, val = bench.declared(p)
+    lo, hi = bench.bounds(p)
+    return (int(p.numberOfFloatVariables), [str(v) for v in p.floatVariableNames], lo, hi, pt, val)
+
+
+def scribble(container, k, value):
+    """Overwrite element k of a metadata container in place, if the container allows it."""
+    try:
+        container[k] = value
+        return True
+    except (TypeError, ValueError, IndexError):
+        return False
+
+
+def check_independence(fam, arg):
+    """Every instance owns its metadata: whatever a user does to the arrays of one instance (narrowing its box in
+    place, renaming a variable, moving its optimum record) must leave the declarations of the instances built
+    before and after it well-formed and unchanged."""
+    who = "%s(%r): " % (fam, arg)
+    first = bench.construct(fam, arg)
+    want = snapshot(first)
+    victim = bench.construct(fam, arg)
+    lo, hi = bench.bounds(victim)
+    w = hi[0] - lo[0]
+    done = []
+    done.append(scribble(victim.lowerBoundOfFloatVariables, 0, lo[0] + 0.375 * w))
+    done.append(scribble(victim.upperBoundOfFloatVariables, 0, hi[0] - 0.375 * w))
+    done.append(scribble(victim.floatVariableNames, 0, "zz"))
+    done.append(scribble(victim.knownOptimum[0].point.floatVariables, 0, lo[0] - w))
+    victim.knownOptimum[0].functionValues[0].value = 12345.0
+    if snapshot(first) != want:
+        fail(who + "writing into the metadata arrays of one instance changed an instance built before it: %r -> %r" %
+             (want, snapshot(first)))
+    later = bench.construct(fam, arg)
+    if snapshot(later) != want:
+        fail(who + "after the metadata arrays of one instance were written to, a newly built instance declares "
+             "%r instead of %r" % (snapshot(later), want))
+    return any(done)
+
+
 def metadata(ctx):
     ctx.exhaustive = True
     inst = all_instances()
@@ -90,6 +131,8 @@ def metadata(ctx):
             continue
         try:
             n = _guard(check_metadata, fam, arg)
+            if fam != "grishagin" or arg % 10 == 1 or ctx.tier == "thorough":    # Grishagin construction is slow
+                _guard(check_independence, fam, arg)
         except Violation as v:
             ctx.violation({"family": fam, "arg": arg}, str(v))
             continue
@@ -185,6 +228,7 @@ SUBCHECKS = {"metadata": metadata, "tables": tables}
 
 def replay(kind, case):
     if kind == "metadata":
+        check_independence(case["family"], tuple(case["arg"]) if isinstance(case["arg"], list) else case["arg"])
         arg = case["arg"]
         check_metadata(case["family"], tuple(arg) if isinstance(arg, list) else arg)
     else:
